@@ -15,12 +15,19 @@ mod exec_world;
 mod eng_cache;
 mod eng_load;
 mod eng_conc;
+mod eng_bytes;
 
 use common::*;
 use std::{fs, io::Write, path::PathBuf};
 
 fn engines() -> Vec<Box<dyn Engine>> {
-    vec![Box::new(eng_rid::RidEngine::default()), Box::new(eng_cache::CacheEngine::default()), Box::new(eng_load::LoadEngine::default()), Box::new(eng_conc::ConcEngine::default())]
+    let mut v: Vec<Box<dyn Engine>> = vec![];
+    v.push(Box::new(eng_rid::RidEngine::default()));
+    v.push(Box::new(eng_cache::CacheEngine::default()));
+    v.push(Box::new(eng_load::LoadEngine::default()));
+    v.push(Box::new(eng_conc::ConcEngine::default()));
+    v.push(Box::new(eng_bytes::BytesEngine::default()));
+    v
 }
 
 fn main() {
